@@ -1,8 +1,11 @@
 #!/bin/sh
-# Copies the contract mirror (/verif/contracts/<pkg>.go) to /repo/lib/<pkg>/zz_verif_contracts.go.
+# Copies the contract mirror (/verif/contracts/<pkg>[_<part>].go) to /repo/lib/<pkg>/zz_verif_contracts[_<part>].go.
 # The files in /repo are what the checks read; the mirror is only a fallback (see DESIGN.md section 8).
 set -e
 for f in /verif/contracts/*.go; do
-  pkg=$(basename "$f" .go)
-  cp "$f" "/repo/lib/$pkg/zz_verif_contracts.go"
+  n=$(basename "$f" .go)
+  case "$n" in
+    *_*) pkg=${n%%_*}; part=${n#*_}; cp "$f" "/repo/lib/$pkg/zz_verif_contracts_$part.go";;
+    *) cp "$f" "/repo/lib/$n/zz_verif_contracts.go";;
+  esac
 done
